@@ -200,6 +200,8 @@ pub fn check(ctx: &Ctx) -> i32 {
             report.violations.push(write_replay(ctx, "fromcore", &bytes, &f));
         }
     }
+    crate::fuzzrun::semantic_phase(ctx, &mut ev, &mut report, "nonlinear", 1105, "direct", 450, &|b| run_direct(ctx, b));
+    crate::fuzzrun::semantic_phase(ctx, &mut ev, &mut report, "linearize", 1205, "fromcore", 450, &|b| run_from_core(ctx, b));
     finish(ctx, &ev, &report, start)
 }
 
